@@ -583,6 +583,13 @@ class System:
                     )
                 )
         self._g[eidx] = comp
+        # keep the declared input order of a PMux child in step with the new name
+        old_rail = self._g.attrs["rails"][name]
+        for key in self._g.attrs["pnames"]:
+            self._g.attrs["pnames"][key] = [
+                comp._params["name"] if (p == name or (old_rail != "" and p == old_rail)) else p
+                for p in self._g.attrs["pnames"][key]
+            ]
         # replace node name in graph dict
         del [self._g.attrs["nodes"][name]]
         self._g.attrs["nodes"][comp._params["name"]] = eidx
